@@ -104,3 +104,80 @@ func c03PathConds(r *Run) {
 		}
 	}
 }
+
+// the SAME condition text evaluated on one engine with operands of different Go types from one render to the next (a typed model behind a JSON
+// API: int in one request, float64 from decoded JSON in the next; two struct types with the same field names in another order): the chain
+// picks the branch the CURRENT values select, whatever an earlier render was given
+type c03UserA struct {
+	Active bool
+	Admin  bool
+}
+type c03UserB struct {
+	Admin  bool
+	Active bool
+}
+
+func c03TypeHistory(r *Run) {
+	tpl := `<ul><li>before</li><li v-if="n == 0">zero</li><li v-else-if="n == 1">one</li><li v-else-if="n != 2">many</li><li v-else>two</li><li>after</li></ul>` +
+		`<div><p v-if="u.Active">active</p><p v-else>inactive</p><span v-show="u.Active" :class="{on: u.Active}" :data-a="u.Active">x</span></div>`
+	nums := []any{int(1), int64(1), uint8(1), float64(1), int32(1), int(0), float64(0), int64(2), uint16(2), float64(3), int8(3)}
+	users := []any{c03UserA{Active: true}, c03UserB{Active: true}, c03UserA{Admin: true}, c03UserB{Admin: true}, map[string]any{"Active": true}, &c03UserB{Active: true}}
+	nval := func(v any) float64 {
+		switch x := v.(type) {
+		case int:
+			return float64(x)
+		case int8:
+			return float64(x)
+		case int32:
+			return float64(x)
+		case int64:
+			return float64(x)
+		case uint8:
+			return float64(x)
+		case uint16:
+			return float64(x)
+		case float64:
+			return x
+		}
+		return -1
+	}
+	active := func(v any) bool {
+		switch x := v.(type) {
+		case c03UserA:
+			return x.Active
+		case c03UserB:
+			return x.Active
+		case *c03UserB:
+			return x.Active
+		case map[string]any:
+			return x["Active"] == true
+		}
+		return false
+	}
+	for i, first := range nums {
+		for j, second := range nums {
+			u1, u2 := users[i%len(users)], users[j%len(users)]
+			res := renderPageAfter(map[string]string{"p.vuego": tpl}, "p.vuego", map[string]any{"n": first, "u": u1}, map[string]any{"n": second, "u": u2}, (i+j)%2 == 0)
+			desc := fmt.Sprintf("type history n:%T(%v)->%T(%v) u:%T->%T", first, first, second, second, u1, u2)
+			c := &Case{Name: desc, Input: map[string]any{"stream": "typehistory", "desc": desc}, Impl: res.canon(), Oracle: &Verdict{OK: true}, Key: desc, Tags: []string{"stream:typehistory"}}
+			want := map[float64]string{0: "zero", 1: "one", 2: "two"}[nval(second)]
+			if want == "" {
+				want = "many"
+			}
+			flat := strings.Join(strings.Fields(res.Out), "")
+			wantU := "<p>inactive</p>"
+			if active(u2) {
+				wantU = "<p>active</p>"
+			}
+			switch {
+			case res.Err != "" || res.Panic != "" || res.Timeout:
+				c.Oracle = &Verdict{OK: false, Class: "chain-selection:type-history", Detail: fmt.Sprintf("%s: render failed: %+v", desc, res)}
+			case !strings.Contains(flat, "<li>before</li><li>"+want+"</li><li>after</li>"):
+				c.Oracle = &Verdict{OK: false, Class: "chain-selection:type-history", Detail: fmt.Sprintf("%s: expected the branch %q between before and after; output %q", desc, want, res.Out)}
+			case !strings.Contains(flat, wantU) || strings.Contains(flat, "display:none") == active(u2) || strings.Contains(flat, `class="on"`) != active(u2):
+				c.Oracle = &Verdict{OK: false, Class: "truthiness-not-uniform:type-history", Detail: fmt.Sprintf("%s: u.Active is %v; output %q", desc, active(u2), res.Out)}
+			}
+			r.Add(c)
+		}
+	}
+}
